@@ -23,10 +23,19 @@ def width(node):
   return int(node.Type.get_dtype().get_length())
 
 class Conv:
-  def __init__(self, blk_name):
+  def __init__(self, blk_name, be='verilog', component=None):
     self.bir, self.rdt, self.rt = _imports()
     self.blk = blk_name
+    self.be, self.component = be, component
     self.q = deque()
+
+  def loopvar(self, name):
+    """Verilog backend: a loop variable named like an attribute of the component is emitted as
+    `__loopvar__<blk>_<name>` (VBehavioralTranslatorL2._loopvar_name, the repair of F18), so that the
+    freshness `WTsL` assumes holds; `VTr.loopVarName .verilog` uses the name it is given."""
+    if self.be == 'verilog' and self.component is not None and hasattr(self.component, name):
+      return f'__loopvar__{self.blk}_{name}'
+    return name
 
   # ------------------------------------------------------------------ expressions
   def expr(self, n):
@@ -61,7 +70,7 @@ class Conv:
     if isinstance(n, bir.Compare):
       op = {bir.Eq: 'eq', bir.NotEq: 'ne', bir.Lt: 'lt', bir.LtE: 'le', bir.Gt: 'gt', bir.GtE: 'ge'}[type(n.op)]
       return ('cmp', op, self.expr(n.left), self.expr(n.right))
-    if isinstance(n, bir.LoopVar): return ('loopvar', self.blk, n.name, width(n))
+    if isinstance(n, bir.LoopVar): return ('loopvar', self.blk, self.loopvar(n.name), width(n))
     if isinstance(n, bir.FreeVar):
       from pymtl3.datatypes import Bits
       if isinstance(n.obj, (int, Bits)) and int(n.obj) >= 0: return ('freevar', n.name, width(n), int(n.obj))
@@ -173,13 +182,13 @@ class Conv:
       if isinstance(stepnode, bir.UnaryOp): stepnode = stepnode.operand
       if not isinstance(stepnode, bir.Number) or not isinstance(n.start, bir.Number) or not isinstance(n.end, bir.Number):
         raise Unmodelled('loop bound expression')
-      return ('for', self.blk, n.var.name, a, b, abs(st), 1 if st < 0 else 0, width(n.start), width(n.end), width(stepnode),
+      return ('for', self.blk, self.loopvar(n.var.name), a, b, abs(st), 1 if st < 0 else 0, width(n.start), width(n.end), width(stepnode),
               self.stmts(n.body))
     raise Unmodelled(type(n).__name__)
 
-def block_sexp(upblk):
+def block_sexp(upblk, be='verilog', component=None):
   """bir.CombUpblk / bir.SeqUpblk -> ('seq', …) of Model/VTr.lean RStmt"""
-  c = Conv(upblk.name)
+  c = Conv(upblk.name, be, component)
   return c.stmts(upblk.body)
 
 def component_blocks(top):
